@@ -1,12 +1,120 @@
 import GridVerif.Model.Proto
 import GridVerif.Model.Elem
+import GridVerif.Model.Ode
+import GridVerif.Gen.Ode
+import GridVerif.Model.OdeSolve
 
 namespace GridVerif.Driver.C15
-open GridVerif.Proto
+open GridVerif.Proto GridVerif.Ode GridVerif.Gen.Ode
+
+/-- A transform object whose five methods return the given values (the model only ever evaluates them
+at the one point of the op). -/
+def constTf (t inv d1 d2 d3 : Float) : TransformFns Float :=
+  ⟨fun _ => t, fun _ => inv, fun _ => d1, fun _ => d2, fun _ => d3⟩
+
+def consts (a : List Float) : List (Coeff Float) := a.map Coeff.const
+
+def optVec : Option (List Float) → String → String
+  | some v, _ => "ok " ++ sFloats v
+  | none, err => err
+
+def pBd : Nat → List String → Option (List (Nat × Nat × Float) × List String)
+  | 0, rest => some ([], rest)
+  | n + 1, i :: j :: c :: rest => do
+    let i ← pNat i
+    let j ← pNat j
+    let c ← pFloat c
+    let (t, rest) ← pBd n rest
+    pure ((i, j, c) :: t, rest)
+  | _, _ => none
 
 /-- Line-protocol handler of property C15: `C15.<op> args…` ↦ one answer line
 (`none` = malformed, answered `bad-op`). -/
 def handle : List String → Option String
+  | "C15.bell" :: n :: k :: rest => do
+    let n ← pNat n
+    let k ← pNat k
+    let (ds, tl) ← pVec pFloat rest
+    if tl ≠ [] then none else
+    pure ("ok " ++ sFloat (bell (seqOfList ds) n k))
+  | "C15.coeffb" :: rest => do
+    let (a, rest) ← pVec pFloat rest
+    match rest with
+    | [d0, d1, d2] =>
+      let d0 ← pFloat d0
+      let d1 ← pFloat d1
+      let d2 ← pFloat d2
+      pure (optVec (coeffB (evalCoeffs 0.0 (consts a)) d0 d1 d2) "not-modelled")
+    | _ => none
+  | "C15.dmat" :: order :: rest => do
+    let order ← pNat order
+    let (ds, tl) ← pVec pFloat rest
+    if tl ≠ [] then none else
+    if derivMatrixRaises order ds.length then pure "value-error" else
+    pure ("ok " ++ sMat sFloat (matRows (derivMatrix (bell (seqOfList ds)) order) order))
+  | "C15.explicit" :: rest => do
+    let (y, rest) ← pVec pFloat rest
+    let (b, rest) ← pVec pFloat rest
+    match rest with
+    | [fx] =>
+      let fx ← pFloat fx
+      match rearrangeToExplicitOde y b fx with
+      | some v => pure ("ok " ++ sFloat v)
+      | none => pure "index-error"
+    | _ => none
+  | "C15.func" :: rest => do
+    let (a, rest) ← pVec pFloat rest
+    match rest with
+    | d0 :: d1 :: d2 :: fx :: rest =>
+      let d0 ← pFloat d0
+      let d1 ← pFloat d1
+      let d2 ← pFloat d2
+      let fx ← pFloat fx
+      let (y, tl) ← pVec pFloat rest
+      if tl ≠ [] then none else
+      pure (optVec (odeFuncTransformed (consts a) (constTf 0.0 0.0 d0 d1 d2) (fun _ => fx) 0.0 y) "error")
+    | _ => none
+  | "C15.funcd" :: rest => do
+    let (a, rest) ← pVec pFloat rest
+    match rest with
+    | fx :: rest =>
+      let fx ← pFloat fx
+      let (y, tl) ← pVec pFloat rest
+      if tl ≠ [] then none else
+      pure (optVec (odeFuncDirect (consts a) (fun _ => fx) 0.0 y) "error")
+    | _ => none
+  | "C15.ivpinit" :: x0 :: x1 :: t0 :: t1 :: d0 :: d1 :: d2 :: rest => do
+    let x0 ← pFloat x0
+    let x1 ← pFloat x1
+    let t0 ← pFloat t0
+    let t1 ← pFloat t1
+    let d0 ← pFloat d0
+    let d1 ← pFloat d1
+    let d2 ← pFloat d2
+    let (y0, tl) ← pVec pFloat rest
+    if tl ≠ [] then none else
+    -- the transform object: `transform(x0) = t0`, `transform(x1) = t1`, derivatives at `x0` as given
+    let tf : TransformFns Float :=
+      ⟨fun x => if x == x0 then t0 else t1, fun _ => 0.0, fun _ => d0, fun _ => d1, fun _ => d2⟩
+    match ivpSetup tf x0 x1 y0 with
+    | some ((a, b), y) => pure ("ok " ++ sFloats (a :: b :: y))
+    | none => pure "index-error"
+  | "C15.back" :: order :: nod :: d0 :: d1 :: d2 :: rest => do
+    let order ← pNat order
+    let nod ← pNat nod
+    let d0 ← pFloat d0
+    let d1 ← pFloat d1
+    let d2 ← pFloat d2
+    let (interp, tl) ← pVec pFloat rest
+    if tl ≠ [] then none else
+    pure (optVec (returnedCallable (constTf 0.0 0.0 d0 d1 d2) order (nod != 0) (fun _ => interp) 0.0) "index-error")
+  | "C15.bc" :: n :: rest => do
+    let n ← pNat n
+    let (bd, rest) ← pBd n rest
+    let (ya, rest) ← pVec pFloat rest
+    let (yb, tl) ← pVec pFloat rest
+    if tl ≠ [] then none else
+    pure (optVec (bcResiduals bd ya yb) "index-error")
   | _ => none
 
 end GridVerif.Driver.C15
